@@ -166,150 +166,172 @@ func certchainCase(run *vkit.Run, caseIx, j int) {
 		panic("certchain returned a different number of certificates")
 	}
 
-	// ---- the spec, from the property text
-	headOf := func(ix int64) (committee, bool) { // committee at the head finalized by certificate index ix
-		if ix < 0 || ix >= int64(len(crts)) {
-			return committee{}, false
+	verify := func(crts []*certs.FinalityCertificate, gen string) {
+		// ---- the spec, from the property text
+		headOf := func(ix int64) (committee, bool) { // committee at the head finalized by certificate index ix
+			if ix < 0 || ix >= int64(len(crts)) {
+				return committee{}, false
+			}
+			head := crts[ix].ECChain.Head()
+			ts, err := fec.GetTipset(ctx, head.Key)
+			if err != nil || ts == nil {
+				panic(fmt.Sprintf("FakeEC lost tipset of certificate %d: %v", ix, err))
+			}
+			pt, err := fec.GetPowerTable(ctx, head.Key)
+			if err != nil {
+				panic(err)
+			}
+			return committee{entries: pt, beacon: ts.Beacon()}, true
 		}
-		head := crts[ix].ECChain.Head()
-		ts, err := fec.GetTipset(ctx, head.Key)
-		if err != nil || ts == nil {
-			panic(fmt.Sprintf("FakeEC lost tipset of certificate %d: %v", ix, err))
-		}
-		pt, err := fec.GetPowerTable(ctx, head.Key)
+		bootTs, err := fec.GetTipsetByEpoch(ctx, bootEpoch)
 		if err != nil {
 			panic(err)
 		}
-		return committee{entries: pt, beacon: ts.Beacon()}, true
-	}
-	bootTs, err := fec.GetTipsetByEpoch(ctx, bootEpoch)
-	if err != nil {
-		panic(err)
-	}
-	bootPT, err := fec.GetPowerTable(ctx, bootTs.Key())
-	if err != nil {
-		panic(err)
-	}
-	initialCommittee := committee{entries: bootPT, beacon: bootTs.Beacon()}
-	inWindow := func(i uint64) bool { return i < c.Initial+c.Lookback }
-	spec := func(i uint64) (committee, bool) {
-		if inWindow(i) {
-			return initialCommittee, true
+		bootPT, err := fec.GetPowerTable(ctx, bootTs.Key())
+		if err != nil {
+			panic(err)
 		}
-		return headOf(int64(i - c.Lookback - c.Initial))
-	}
-	// which certificate head (relative to i-lookback) does a beacon belong to
-	offsetOf := func(i uint64, got committee) string {
-		if inWindow(i) {
-			if bytes.Equal(got.beacon, initialCommittee.beacon) {
-				return "+0"
+		initialCommittee := committee{entries: bootPT, beacon: bootTs.Beacon()}
+		inWindow := func(i uint64) bool { return i < c.Initial+c.Lookback }
+		spec := func(i uint64) (committee, bool) {
+			if inWindow(i) {
+				return initialCommittee, true
+			}
+			return headOf(int64(i - c.Lookback - c.Initial))
+		}
+		// which certificate head (relative to i-lookback) does a beacon belong to
+		offsetOf := func(i uint64, got committee) string {
+			if inWindow(i) {
+				if bytes.Equal(got.beacon, initialCommittee.beacon) {
+					return "+0"
+				}
+				return "?"
+			}
+			base := int64(i - c.Lookback - c.Initial)
+			for _, d := range []int64{0, 1, -1, 2, -2, 3, -3} {
+				if h, ok := headOf(base + d); ok && bytes.Equal(h.beacon, got.beacon) {
+					return fmt.Sprintf("%+d", d)
+				}
 			}
 			return "?"
 		}
-		base := int64(i - c.Lookback - c.Initial)
-		for _, d := range []int64{0, 1, -1, 2, -2, 3, -3} {
-			if h, ok := headOf(base + d); ok && bytes.Equal(h.beacon, got.beacon) {
-				return fmt.Sprintf("%+d", d)
-			}
-		}
-		return "?"
-	}
 
-	// ---- the node
-	cs, err := certstore.CreateStore(ctx, ds_sync.MutexWrap(datastore.NewMapDatastore()), m.InitialInstance, bootPT)
-	if err != nil {
-		panic(err)
-	}
-	node := f3.VerifNewInputs(m, cs, fec, sv, clk)
-
-	certchainSide := func(i uint64) (committee, error) {
-		cm, err := cc.GetCommittee(ctx, i)
+		// ---- the node
+		cs, err := certstore.CreateStore(ctx, ds_sync.MutexWrap(datastore.NewMapDatastore()), m.InitialInstance, bootPT)
 		if err != nil {
-			return committee{}, err
+			panic(err)
 		}
-		return committee{entries: cm.PowerTable.Entries, beacon: cm.Beacon}, nil
-	}
+		node := f3.VerifNewInputs(m, cs, fec, sv, clk)
 
-	compare := func(i uint64, state string, ruleEntries bool) {
-		last := c.Initial + c.Length - 1
-		want, haveSpec := spec(i)
-		if !haveSpec {
-			return
-		}
-		ncm, nerr := node.GetCommittee(ctx, i)
-		if nerr != nil {
-			run.Violation(fmt.Sprintf("C19 certchain committee: node GetCommittee fails on generated certificates (state=%s): %s", state, stripNumbers(nerr.Error())),
-				wit(map[string]any{"instance": i, "state": state, "error": nerr.Error()}))
-			return
-		}
-		n := committee{entries: ncm.PowerTable.Entries, beacon: ncm.Beacon}
-		cm, cerr := certchainSide(i)
-		if cerr != nil {
-			if i <= last {
-				run.Violation(fmt.Sprintf("C19 certchain committee: certchain.GetCommittee fails for a generated instance: %s", stripNumbers(cerr.Error())),
-					wit(map[string]any{"instance": i, "error": cerr.Error()}))
+		certchainSide := func(i uint64) (committee, error) {
+			cm, err := cc.GetCommittee(ctx, i)
+			if err != nil {
+				return committee{}, err
 			}
-			return
+			return committee{entries: cm.PowerTable.Entries, beacon: cm.Beacon}, nil
 		}
-		run.Count("certchain_committees_compared", 1)
-		run.Eval(1)
-		run.Count("certchain_compared_state_"+state, 1)
-		win := "steady"
-		if inWindow(i) {
-			win = "bootstrap-window"
-		}
-		run.Distinct(fmt.Sprintf("cc|%d|%d|%s|%s", c.Lookback, c.Initial, state, win))
-		// In the store-backed states the node takes the ENTRIES from its certstore, i.e. from the
-		// deltas certchain wrote into the certificates; only its beacon is rule-derived there.
-		certDev := !cm.eq(want, true, true)
-		nodeDev := !n.eq(want, ruleEntries, true)
-		differ := diffFields(cm, n)
-		if differ == "" && !certDev && !nodeDev {
-			return
-		}
-		side := "neither"
-		switch {
-		case certDev && nodeDev:
-			side = "both"
-		case certDev:
-			side = "certchain"
-		case nodeDev:
-			side = "node"
-		}
-		w := wit(map[string]any{"instance": i, "node_state": state, "lookback": c.Lookback, "initial": c.Initial,
-			"certchain_vs_node": differ, "certchain_vs_spec": diffFields(cm, want), "node_vs_spec": diffFields(n, want),
-			"spec_certificate": int64(i) - int64(c.Lookback), "certchain_beacon": fmt.Sprintf("%x", cm.beacon), "node_beacon": fmt.Sprintf("%x", n.beacon), "spec_beacon": fmt.Sprintf("%x", want.beacon)})
-		run.Count("certchain_committees_deviating", 1)
-		if differ == "" {
-			run.Violation(fmt.Sprintf("C19 certchain committee: certchain and node agree with each other but not with the look-back rule (%s); certchain takes head of certificate i-L%s; node takes head of certificate i-L%s",
-				diffFields(cm, want), offsetOf(i, cm), offsetOf(i, n)), w)
-			return
-		}
-		run.Violation(fmt.Sprintf("C19 certchain committee: certchain.GetCommittee differs from node GetCommittee in %s; deviating side=%s; certchain takes head of certificate i-L%s; node takes head of certificate i-L%s",
-			differ, side, offsetOf(i, cm), offsetOf(i, n)), w)
-	}
 
-	for t := uint64(0); t <= c.Length; t++ {
-		// store holds certificates initial .. initial+t-1
-		next := c.Initial + t
-		compare(next, "one-behind", false)
-		compare(next+1, "two-behind-ec-path", true)
-		if t == c.Length {
-			break
+		compare := func(i uint64, state string, ruleEntries bool) {
+			last := c.Initial + c.Length - 1
+			want, haveSpec := spec(i)
+			if !haveSpec {
+				return
+			}
+			ncm, nerr := node.GetCommittee(ctx, i)
+			if nerr != nil {
+				run.Violation(fmt.Sprintf("C19 certchain committee: node GetCommittee fails on generated certificates (state=%s): %s", state, stripNumbers(nerr.Error())),
+					wit(map[string]any{"instance": i, "state": state, "error": nerr.Error()}))
+				return
+			}
+			n := committee{entries: ncm.PowerTable.Entries, beacon: ncm.Beacon}
+			cm, cerr := certchainSide(i)
+			if cerr != nil {
+				if i <= last {
+					run.Violation(fmt.Sprintf("C19 certchain committee: certchain.GetCommittee fails for a generated instance: %s", stripNumbers(cerr.Error())),
+						wit(map[string]any{"instance": i, "error": cerr.Error()}))
+				}
+				return
+			}
+			run.Count("certchain_committees_compared", 1)
+			run.Eval(1)
+			run.Count("certchain_compared_state_"+state, 1)
+			win := "steady"
+			if inWindow(i) {
+				win = "bootstrap-window"
+			}
+			run.Distinct(fmt.Sprintf("cc|%d|%d|%s|%s", c.Lookback, c.Initial, state, win))
+			// In the store-backed states the node takes the ENTRIES from its certstore, i.e. from the
+			// deltas certchain wrote into the certificates; only its beacon is rule-derived there.
+			certDev := !cm.eq(want, true, true)
+			nodeDev := !n.eq(want, ruleEntries, true)
+			differ := diffFields(cm, n)
+			if differ == "" && !certDev && !nodeDev {
+				return
+			}
+			side := "neither"
+			switch {
+			case certDev && nodeDev:
+				side = "both"
+			case certDev:
+				side = "certchain"
+			case nodeDev:
+				side = "node"
+			}
+			w := wit(map[string]any{"instance": i, "node_state": state, "lookback": c.Lookback, "initial": c.Initial,
+				"certchain_vs_node": differ, "certchain_vs_spec": diffFields(cm, want), "node_vs_spec": diffFields(n, want),
+				"spec_certificate": int64(i) - int64(c.Lookback), "certchain_beacon": fmt.Sprintf("%x", cm.beacon), "node_beacon": fmt.Sprintf("%x", n.beacon), "spec_beacon": fmt.Sprintf("%x", want.beacon)})
+			run.Count("certchain_committees_deviating", 1)
+			if differ == "" {
+				run.Violation(fmt.Sprintf("C19 certchain committee: certchain and node agree with each other but not with the look-back rule (%s); certchain takes head of certificate i-L%s; node takes head of certificate i-L%s",
+					diffFields(cm, want), offsetOf(i, cm), offsetOf(i, n)), w)
+				return
+			}
+			run.Violation(fmt.Sprintf("C19 certchain committee: certchain.GetCommittee differs from node GetCommittee in %s; deviating side=%s; certchain takes head of certificate i-L%s; node takes head of certificate i-L%s",
+				differ, side, offsetOf(i, cm), offsetOf(i, n)), w)
 		}
-		if err := cs.Put(ctx, crts[t]); err != nil {
-			run.Violation("C19 certchain committee: a real certstore rejects a generated certificate: "+stripNumbers(err.Error()),
-				wit(map[string]any{"instance": next, "error": err.Error()}))
+
+		for t := uint64(0); t <= c.Length; t++ {
+			// store holds certificates initial .. initial+t-1
+			next := c.Initial + t
+			compare(next, "one-behind"+gen, false)
+			compare(next+1, "two-behind-ec-path"+gen, true)
+			if t == c.Length {
+				break
+			}
+			if err := cs.Put(ctx, crts[t]); err != nil {
+				run.Violation("C19 certchain committee: a real certstore rejects a generated certificate: "+stripNumbers(err.Error()),
+					wit(map[string]any{"instance": next, "error": err.Error()}))
+				return
+			}
+		}
+		// full store: every generated instance plus the look-ahead the node can still serve
+		for i := c.Initial; i <= c.Initial+c.Length-1+c.Lookback; i++ {
+			compare(i, "full-store"+gen, i > c.Initial+c.Length)
+		}
+		// generated certificates must also validate as a chain against the initial table (sanity of the workload)
+		if _, _, _, err := certs.ValidateFinalityCertificates(sv, m.NetworkName, bootPT, c.Initial, crts[0].ECChain.Base(), crts...); err != nil {
+			run.Count("certchain_chain_validation_failed", 1)
+		}
+	}
+	verify(crts, "")
+	if j%2 == 0 {
+		// the same generator object produces a second, different chain: its committees must follow the
+		// look-back rule over the NEW chain (nothing of the first one may be remembered)
+		crts2, err := cc.Generate(ctx, c.Length)
+		if err != nil {
+			run.Violation("C19 certchain committee: a second Generate on the same generator fails: "+stripNumbers(err.Error()), wit(map[string]any{"error": err.Error()}))
 			return
 		}
-	}
-	// full store: every generated instance plus the look-ahead the node can still serve
-	for i := c.Initial; i <= c.Initial+c.Length-1+c.Lookback; i++ {
-		compare(i, "full-store", i > c.Initial+c.Length)
-	}
-	// generated certificates must also validate as a chain against the initial table (sanity of the workload)
-	if _, _, _, err := certs.ValidateFinalityCertificates(sv, m.NetworkName, bootPT, c.Initial, crts[0].ECChain.Base(), crts...); err != nil {
-		run.Count("certchain_chain_validation_failed", 1)
+		same := len(crts2) == len(crts)
+		for k := 0; same && k < len(crts); k++ {
+			same = crts2[k].ECChain.Eq(crts[k].ECChain)
+		}
+		if same {
+			run.Count("certchain_regenerated_chain_identical", 1)
+		} else {
+			run.Count("certchain_regenerated_chains", 1)
+		}
+		verify(crts2, "+regenerated")
 	}
 }
 
